@@ -35,6 +35,23 @@ pub fn gen_sets(cfg: &RunCfg) -> Vec<Vec<M>> {
             mods.push(md);
         }
         link_imports(&mut rng, &mut mods, 3, &format!("{set}"));
+        // an imported value whose (not imported) type is named like the beginning of another imported symbol
+        if n_mod >= 2 && rng.chance(1, 2) {
+            let (pi, ui) = (0usize, 1usize);
+            let (ty, long, val) = (format!("Spd{set}"), format!("Spd{set}Limit"), format!("vspd{set}e"));
+            mods[pi].defs.push(D { text: format!("{ty} ::= INTEGER (0..255)"), name: ty.clone(), kind: Kind::Type, shape: "Int".into(), refs: vec![], fault: None });
+            mods[pi].defs.push(D { text: format!("{long} ::= BOOLEAN"), name: long.clone(), kind: Kind::Type, shape: "Boo".into(), refs: vec![], fault: None });
+            mods[pi].defs.push(D { text: format!("{val} {ty} ::= 5"), name: val.clone(), kind: Kind::Value, shape: "vInt".into(), refs: vec![ty], fault: None });
+            let prov = mods[pi].name.clone();
+            if let Some(clause) = mods[ui].imports.iter_mut().find(|(p, _)| p == &prov) {
+                clause.1.push(long.clone());
+                clause.1.push(val.clone());
+            } else {
+                mods[ui].imports.push((prov, vec![long.clone(), val.clone()]));
+            }
+            let un = format!("UseSpd{set}");
+            mods[ui].defs.push(D { text: format!("{un} ::= SEQUENCE {{ f {long}, g INTEGER (0..{val}) }}"), name: un, kind: Kind::Type, shape: "UseC".into(), refs: vec![long, val], fault: None });
+        }
         // module-qualified references
         for j in 0..n_mod {
             if rng.chance(1, 3) {
@@ -62,6 +79,18 @@ pub fn gen_sets(cfg: &RunCfg) -> Vec<Vec<M>> {
                                 let name = format!("UseQ{set}x{j}f{fi}e");
                                 mods[j].defs.push(D { text: format!("{name} ::= {form}"), name, kind: Kind::Type, shape: "UseQ".into(), refs: vec![t.clone()], fault: None });
                             }
+                        }
+                        // a qualified value in the constraint of an INTEGER that has a named number of the same name
+                        // (and of another name, as the control): the qualified one is the provider's
+                        {
+                            let (cv, lim) = (format!("ceiling{set}x{j}e"), 100 + set as i64);
+                            mods[i].defs.push(D { text: format!("{cv} INTEGER ::= {lim}"), name: cv.clone(), kind: Kind::Value, shape: "vint".into(), refs: vec![], fault: None });
+                            let name = format!("UseQv{set}x{j}ae");
+                            mods[j].defs.push(D { text: format!("{name} ::= INTEGER {{ {cv}(5), low(1) }} (0 .. {prov}.{cv})"), name, kind: Kind::Type, shape: "UseQv".into(), refs: vec![cv.clone(), lim.to_string()], fault: None });
+                            let name = format!("UseQv{set}x{j}be");
+                            mods[j].defs.push(D { text: format!("{name} ::= INTEGER {{ top(5), low(1) }} (low .. {prov}.{cv})"), name, kind: Kind::Type, shape: "UseQv".into(), refs: vec![cv.clone(), lim.to_string()], fault: None });
+                            let name = format!("UseQv{set}x{j}ce");
+                            mods[j].defs.push(D { text: format!("{name} ::= SEQUENCE {{ c INTEGER {{ {cv}(5) }} (0 .. {prov}.{cv}) }}"), name, kind: Kind::Type, shape: "UseQv".into(), refs: vec![cv, lim.to_string()], fault: None });
                         }
                         // a cycle across the two modules, by qualified references on both sides (one side gets boxed)
                         if rng.chance(1, 2) {
@@ -91,7 +120,7 @@ fn closure(mods: &[M], root: usize) -> BTreeSet<usize> {
                 }
             }
             // providers of module-qualified references (no IMPORTS clause needed for those)
-            for d in mods[i].defs.iter().filter(|d| d.shape == "UseQ") {
+            for d in mods[i].defs.iter().filter(|d| d.shape == "UseQ" || d.shape == "UseQv") {
                 if let Some(k) = mods.iter().position(|m| d.text.contains(&format!(" {}.{}", m.name, d.refs[0]))) {
                     todo.push(k);
                 }
@@ -312,6 +341,15 @@ pub fn run(cfg: &RunCfg) -> Report {
                     rep.count("qualified-reference");
                     if ok != Some(true) {
                         rep.unsat("", false, json!({"why": format!("module {}: `{}` should refer to super::<{}>::{}: {}", m.name, d.text, prov, d.refs[0], text), "case": case()}));
+                    }
+                }
+            }
+            for d in m.defs.iter().filter(|d| d.shape == "UseQv") {
+                if let Some((_, text)) = fb.iter().find(|(id, _)| id == &d.rust_name()) {
+                    let squeezed: String = text.chars().filter(|c| !c.is_whitespace()).collect();
+                    rep.count("qualified-value-in-constraint");
+                    if !squeezed.contains(&format!("..={}\"", d.refs[1])) {
+                        rep.unsat("", false, json!({"why": format!("module {}: `{}` — the upper bound should be the value {} of the named module: {}", m.name, d.text, d.refs[1], text), "case": case()}));
                     }
                 }
             }
